@@ -60,18 +60,31 @@ Definition max_alloc : Z := 268435456.
 Definition reindex (start ext pos nn : v3) (dflt : Z) (data : list Z) : res (list Z) :=
   let size := point_count nn in
   if size >? max_alloc then Exc else
+  (* the loop reads data[idx++] once per iteration *)
+  if loop_count ext >? Z.of_nat (length data) then Oob else
   bind (write_all start ext pos nn size (combine (zseq 0 (loop_count ext)) data) aempty)
        (fun full => Ok (to_list full dflt size)).
 
-(* pre-checks added by the repair of the reader (see Properties_C03): none in the original code *)
-Definition setup_checks (h : hdr) (n : v3) (smode : Z) : bool := true.
+(* header validation at the start of setup(); the original code has none *)
+Definition no_checks (h : hdr) (n : v3) (smode : Z) : bool := true.
+(* (size_t) a * b * c does not wrap around (only tested for positive a, b, c) *)
+Definition count_fits (t : v3) : bool :=
+  let '(a, b, c) := t in negb ((0 <? a) && (0 <? b) && (0 <? c)) || (a * b * c <? two64).
+(* the repaired code: positive sampling (unless only re-ordering), start + size inside int, counts fit size_t *)
+Definition setup_checks (h : hdr) (n : v3) (smode : Z) : bool :=
+  let '(m0, m1, m2) := h_samp h in
+  let '(e0, e1, e2) := add_v3 (h_start h) n in
+  ((smode =? 2) || ((0 <? m0) && (0 <? m1) && (0 <? m2))) &&
+  fits_int e0 && fits_int e1 && fits_int e2 &&
+  count_fits n && ((smode =? 2) || count_fits (h_samp h)).
 
 (* setup() up to and including the re-indexing loop.
    smode: 0 Full, 1 NoSymmetry, 2 ReorderOnly. Result: header', grid', and whether Full mode goes on
    to symmetrize_nondefault. *)
-Definition setup_core (h : hdr) (g : grid) (dflt smode : Z) : res (hdr * grid * bool) :=
+Definition setup_core_gen (checks : hdr -> v3 -> Z -> bool) (h : hdr) (g : grid) (dflt smode : Z)
+  : res (hdr * grid * bool) :=
   if g_ao g =? 1 then Ok (h, g, false) else
-  if negb (setup_checks h (g_n g) smode) then Exc else
+  if negb (checks h (g_n g) smode) then Exc else
   let sampl := h_samp h in
   bind (axis_positions (h_axes h)) (fun pos =>
     let start := h_start h in
@@ -90,11 +103,18 @@ Definition setup_core (h : hdr) (g : grid) (dflt smode : Z) : res (hdr * grid * 
                   || (sel n (sel pos 2) <? sel sampl 2) in
       Ok (h', mkGrid nn ao' data', (smode =? 0) && part))).
 
-(* the whole of setup(); sgops ispg nu nv nw = scaled operations of the header's space group *)
-Definition setup (sgops : Z -> v3 -> list gridop) (h : hdr) (g : grid) (dflt smode : Z) : res (hdr * grid) :=
-  bind (setup_core h g dflt smode) (fun r =>
+Definition setup_core := setup_core_gen setup_checks.
+(* the code as found in the pinned snapshot *)
+Definition setup_core_orig := setup_core_gen no_checks.
+
+(* the whole of setup(); sgops ispg n = scaled operations of the header's space group for grid n;
+   compat ispg n = the compatibility test made before the symmetry expansion (none in the original code) *)
+Definition setup_gen (core : hdr -> grid -> Z -> Z -> res (hdr * grid * bool)) (compat : Z -> v3 -> bool)
+                     (sgops : Z -> v3 -> list gridop) (h : hdr) (g : grid) (dflt smode : Z) : res (hdr * grid) :=
+  bind (core h g dflt smode) (fun r =>
     let '(h', g', symm) := r in
     if symm then
+      if negb (compat (h_ispg h') (g_n g')) then Exc else
       let '(nu, nv, nw) := g_n g' in
       bind (symmetrize_using_ops (reducer 4 dflt) nu nv nw (sgops (h_ispg h') (g_n g')) (g_data g'))
            (fun d => Ok (h', mkGrid (g_n g') (g_ao g') d))
